@@ -243,12 +243,13 @@ def k3(ctx):
                               C.short(b.id), s_[1], t_[1], role_str(el), t_[1], s_[1]), where_of(b, bi, s.get("line")))
     # (2) self-symmetry derivation: (a, b, proof) = pc_congruence(..)  proves a -> b
     pol_ = mir.default_inline_policy(crate)
+    roots_ = {rb.id for rb, _ in C.self_symmetry_sites(crate)}
     for b0 in crate.fns():
-        if b0.id in leaders or b0.id in helper_ids or b0.id in pol_:
+        if b0.id in leaders or b0.id in helper_ids or (b0.id in pol_ and b0.id not in roots_):
             continue
         # a `mk_proven_perm(elem, proof)` constructor helper is looked through, and so is a single-use helper holding the tail of
         # the deriver's loop (add_self_symmetry)
-        b = mir.accessor_view(crate, mir.inline_view(crate, b0, keep=tuple(sorted(set(leaders) | set(helper_ids)))))
+        b = mir.accessor_view(crate, mir.inline_view(crate, b0, keep=tuple(sorted(set(leaders) | set(helper_ids) | (roots_ - {b0.id})))))
         for bi, si, s in b.statements():
             rv = s["rv"] if s["k"] == "assign" else None
             if rv and rv["k"] == "agg" and str(rv.get("adt", "")).endswith("perm::ProvenPerm") and not (b.file or "").endswith("wrapper/perm.rs"):
